@@ -175,12 +175,37 @@ class Model:
         for c in self.classes.values():
             c.bases = [b.attr if isinstance(b, ast.Attribute) else getattr(b, 'id', ast.unparse(b)) for b in c.node.bases]
         self._rename_aliases()
+        self._absorber_aliases()
         self._decorator_aliases()
         self.mro = {c: self._c3(c) for c in self.classes}
         self._implicit_hash()
         self._switch_tables()
         self._registry()
         self._roles()
+
+    def _absorber_aliases(self):
+        """A function of the reviewed tree that is gone because it was folded into its ONE caller: the old key answers with that
+        caller, so that a rule anchored on the helper examines the code where it now lives (engine/reasons.py finds the absorber by
+        the vocabulary the caller gained)."""
+        try:
+            from .reasons import Renames
+            absorbed = Renames(self).absorbed
+        except Exception:
+            return
+        by_old = {}
+        for k, olds in absorbed.items():
+            for o in olds:
+                by_old.setdefault(o, []).append(k)
+        for o, ks in by_old.items():
+            if len(ks) == 1 and not dict.__contains__(self.funcs, o) and o not in self.funcs.alias:
+                self.funcs.alias[o] = ks[0]
+                f = dict.__getitem__(self.funcs, ks[0])
+                oldname = o.split(':')[1].split('.')[-1]
+                if f.cls and f.cls in self.classes and o.split(':')[1].split('.')[0] == f.cls:
+                    self.classes[f.cls].methods.alias.setdefault(oldname, f.name)
+                elif not f.cls and '.' not in o.split(':')[1]:
+                    self.modfuncs[f.mod].alias.setdefault(oldname, f.name)
+        self.absorbed_into = {o: ks[0] for o, ks in by_old.items() if len(ks) == 1}
 
     def _decorator_aliases(self):
         """`_memo = functools.lru_cache(maxsize=N)` at module level and `@_memo` on a function: the decorator is read as what
